@@ -118,6 +118,7 @@ def child(args):
     if hasattr(mod, "setup"):
         mod.setup(pr)
     pr.reach_start()
+    os.environ.setdefault("VERIF_DEPTH", str(getattr(mod, "THOROUGH_DEPTH", 1)))
     rng = np.random.Generator(np.random.PCG64(shard_seed(args.seed, args.prop, args.shard)))
     ctx = Ctx()
     stats = new_stats()
@@ -357,6 +358,7 @@ def finish(mod, args, parts, digests, inconclusive, t0, nsh):
             "notes": dict(sorted(notes.items())), "known_findings_hit": known_hits,
             "unknown_violation_classes": unknown, "shards": nsh, "inconclusive_reasons": inconclusive,
             "verdict": verdict, "tree": dict(git_rev(tree()), path=tree()),
+            "thorough_depth": (max(1.0, float(os.environ.get("VERIF_DEPTH", getattr(mod, "THOROUGH_DEPTH", 1)))) if tier == "thorough" else None),
             **extra,
         },
         "assumptions": list(getattr(mod, "ASSUMPTIONS", [])),
